@@ -380,6 +380,7 @@ func checkC08(r *Report) {
 	}
 	parentKeyRule(r, p, "C08.e/PARENT-KEY")
 	edgeParentVersionRule(r, p, "C08.i/EDGE-PARENT-VERSION")
+	pinInputsCoveredRule(r, p, "C08.j/PIN-INPUTS-COVERED")
 	critMapFrozenRule(r, p, e, "C08.f/CRIT-MAP-FROZEN")
 	memoNegativeRule(r, p, "C08.g/MEMO-NEGATIVE")
 	criterionLiteralRule(r, p, "C08.h/CRITERION-COMPLETE")
@@ -1163,4 +1164,101 @@ func sameVar(a, b ssa.Value) bool {
 	}
 	_, isAlloc := la.X.(*ssa.Alloc)
 	return isAlloc && la.X == lb.X
+}
+
+// pinInputsCoveredRule (C08.j PIN-INPUTS-COVERED): pinning a candidate expands
+// its dependencies from two things the criterion holds: the candidate list and
+// the requested extras (the argument handed to getCriteriaToUpdate). A
+// requirement merged later can enlarge either. isCurrentPinSatisfying, the
+// shortcut that decides whether a package has to be pinned again, must read
+// every criterion field the expansion consumed; if it looks at the candidates
+// only, an extra requested after the pin is never expanded and the
+// requirements it enables are missing from the graph.
+func pinInputsCoveredRule(r *Report, p *Prog, rule string) {
+	pin := p.lookupFn("(*resolve/pypi.resolution).attemptToPinCriterion")
+	sat := p.lookupFn("(*resolve/pypi.resolution).isCurrentPinSatisfying")
+	key := "resolve/pypi: isCurrentPinSatisfying reads what the pin was expanded from"
+	if pin == nil || sat == nil {
+		r.bad(rule, key, "", "attemptToPinCriterion or isCurrentPinSatisfying not found: anchor lost")
+		return
+	}
+	critField := func(v ssa.Value) string {
+		for d := 0; d < 4 && v != nil; d++ {
+			switch x := v.(type) {
+			case *ssa.Field:
+				if strings.HasSuffix(x.X.Type().String(), "pypi.criterion") {
+					return x.X.Type().Underlying().(*types.Struct).Field(x.Field).Name()
+				}
+				return ""
+			case *ssa.FieldAddr:
+				if pt, ok := x.X.Type().Underlying().(*types.Pointer); ok && strings.HasSuffix(pt.Elem().String(), "pypi.criterion") {
+					return pt.Elem().Underlying().(*types.Struct).Field(x.Field).Name()
+				}
+				return ""
+			case *ssa.UnOp:
+				v = x.X
+			default:
+				return ""
+			}
+		}
+		return ""
+	}
+	consumed := map[string]bool{}
+	for _, b := range pin.Blocks {
+		for _, in := range b.Instrs {
+			switch x := in.(type) {
+			case *ssa.Call:
+				if sc := x.Common().StaticCallee(); sc != nil && sc.Name() == "getCriteriaToUpdate" {
+					for _, a := range x.Common().Args {
+						if f := critField(a); f != "" {
+							consumed[f] = true
+						}
+					}
+				}
+			case *ssa.IndexAddr:
+				// the candidate tried: crit.candidates[i]
+				if f := critField(x.X); f != "" {
+					consumed[f] = true
+				}
+			case *ssa.Index:
+				if f := critField(x.X); f != "" {
+					consumed[f] = true
+				}
+			}
+		}
+	}
+	read := map[string]bool{}
+	for _, b := range sat.Blocks {
+		for _, in := range b.Instrs {
+			if v, ok := in.(ssa.Value); ok {
+				if f := critField(v); f != "" {
+					read[f] = true
+				}
+			}
+		}
+	}
+	var missing []string
+	for f := range consumed {
+		if !read[f] {
+			missing = append(missing, f)
+		}
+	}
+	sort.Strings(missing)
+	switch {
+	case len(consumed) < 2:
+		r.bad(rule, key, p.pos(pin.Pos()), fmt.Sprintf("only %d criterion field(s) found feeding the expansion of a pin (expected the candidates and the extras): anchor lost", len(consumed)))
+	case len(missing) > 0:
+		r.bad(rule, key, p.pos(sat.Pos()), fmt.Sprintf("the pin of a package is expanded from criterion.%v, which isCurrentPinSatisfying never reads: when a later requirement changes it (an extra requested after the package was pinned), the package is still judged satisfied, its dependencies are not collected again, and the requirements the new value enables are missing from the returned graph", missing))
+	default:
+		r.ok(rule, key, p.pos(sat.Pos()), fmt.Sprintf("reads every consumed field %v", keysOf(consumed)))
+	}
+}
+
+func keysOf(m map[string]bool) []string {
+	var ks []string
+	for k := range m {
+		ks = append(ks, k)
+	}
+	sort.Strings(ks)
+	return ks
 }
